@@ -1638,7 +1638,9 @@ func (r *stack) lock() {
 			sc, _ := r.config()
 			_now := now()
 			sc.ldr = &_now
+			verifPoint(`lock.want`, r)
 			mutex.Lock()
+			verifPoint(`lock.held`, r)
 		}
 	}
 }
@@ -1651,9 +1653,11 @@ the receiver, nothing happens.
 func (r *stack) unlock() {
 	if r.canMutex() {
 		if mutex, found := r.mutex(); found {
+			verifPoint(`lock.release`, r)
 			mutex.Unlock()
 			sc, _ := r.config()
 			sc.ldr = nil
+			verifPoint(`lock.released`, r)
 		}
 	}
 }
